@@ -1,13 +1,26 @@
-(* OCaml driver for the extracted C13 leaf model (Search/TBRules.v); same protocol as the R and X
-   requests of harness/c04_harness.cpp:
+(* OCaml driver for the extracted C13 model (Search/TBRules.v).
+   Leaf requests (same protocol as the R and X requests of harness/c04_harness.cpp):
      R dtm ply hmc old   -> "margin evalScoreAfter"
-     X eval dist         -> swindleScore *)
+     X eval dist         -> swindleScore
+   Probe / return-site requests (same inputs as harness/c13_harness.cpp mode probe, with the
+   table's value of the position instead of the position: sign 1 = side to move mates, -1 = is
+   mated, 0 = draw; k = distance in plies):
+     P sign k hmc ply                          -> "type score evalScore"      (probe_of)
+     S sign k hmc ply alpha beta depth eval    -> "cut score type"            (tb_node: SCut)
+                                                | "go lo hi alpha' beta'"     (SGo: the node is searched
+                                                  on with the window (alpha', beta'); its final result,
+                                                  clamped by tbAdjust, lies in [lo, hi]) *)
 open Tb_model
 
 let rec pos_of_int n = if n = 1 then XH else if n land 1 = 0 then XO (pos_of_int (n lsr 1)) else XI (pos_of_int (n lsr 1))
 let z_of_int n = if n = 0 then Z0 else if n > 0 then Zpos (pos_of_int n) else Zneg (pos_of_int (-n))
 let rec int_of_pos = function XH -> 1 | XO p -> 2 * int_of_pos p | XI p -> 2 * int_of_pos p + 1
 let int_of_z = function Z0 -> 0 | Zpos p -> int_of_pos p | Zneg p -> - (int_of_pos p)
+let rec nat_of_int n = if n <= 0 then O else S (nat_of_int (n - 1))
+
+let tbval_of sign k = if sign > 0 then TWin (nat_of_int ((k + 1) / 2)) else if sign < 0 then TLoss (nat_of_int (k / 2)) else TDraw
+
+let inf = 99999
 
 let () =
   try
@@ -15,10 +28,22 @@ let () =
       let line = input_line stdin in
       let t = Array.of_list (List.filter (fun s -> s <> "") (String.split_on_char ' ' line)) in
       if Array.length t > 0 then begin
-        let z k = z_of_int (int_of_string t.(k)) in
+        let i k = int_of_string t.(k) in
+        let z k = z_of_int (i k) in
         match t.(0) with
         | "R" -> let (m, ev) = rule50Margin (z 1) (z 2) (z 3) (z 4) in Printf.printf "%d %d\n" (int_of_z m) (int_of_z ev)
         | "X" -> Printf.printf "%d\n" (int_of_z (swindleScore (z 1) (z 2)))
+        | "P" ->
+            let ((ty, sc), ev) = probe_of (tbval_of (i 1) (i 2)) (z 4) (z 3) in
+            Printf.printf "%d %d %d\n" (int_of_z ty) (int_of_z sc) (int_of_z ev)
+        | "S" ->
+            (match tb_node (tbval_of (i 1) (i 2)) (z 4) (z 3) (z 5) (z 6) (z 7) (z 8) with
+             | SCut (s, ty) -> Printf.printf "cut %d %d\n" (int_of_z s) (int_of_z ty)
+             | SGo (a, b, tbs, tbt) ->
+                 let tbt = int_of_z tbt and tbs = int_of_z tbs in
+                 let lo = if tbt = int_of_z t_GE then tbs else - inf in
+                 let hi = if tbt = int_of_z t_LE then tbs else inf in
+                 Printf.printf "go %d %d %d %d\n" lo hi (int_of_z a) (int_of_z b))
         | s -> failwith ("bad request " ^ s)
       end
     done
